@@ -106,7 +106,7 @@ def oracle_inv_grad(ck, filt, J, H, W, o, ri, mask, named, tol):
             ck.fail(desc + ': argument %d requires grad but received None' % i, replay); return 'none'
         n_i = t.numel()
         with torch.no_grad():
-            base = [torch.zeros_like(u) for u in ins]
+            base = [torch.zeros(tuple(u.shape), dtype=u.dtype) for u in ins]
             want = torch.zeros(n_i)
             for k in range(n_i):
                 base[i].reshape(-1)[k] = 1
